@@ -179,6 +179,50 @@ func runC11(c *Ctx) {
 			c.Check(K(f.Name, "create only when absent"), cl.Pos(), g, "a sender is created only when the map lookup found none", "creation not guarded by !ok of the lookup")
 		}
 		c.Anchor(lookup != nil, "map lookup in messageSenderForPeer not found")
+		// a sender leaves the map only invalidated (D17): the creator's failure path deletes the
+		// entry only behind "prepOrInvalidate invalidated it" — when the creator's context merely
+		// ended while it waited for the sender's lock, the sender is untouched and a request that
+		// picked it up meanwhile may be using it
+		for _, del := range f.Calls("builtin.delete") {
+			if len(del.Args) != 2 || !eng.IsField(info, del.Args[0], msiT+".strmap") {
+				continue
+			}
+			g, _ := cf.Guarded(cf.LocOf(del), func(ft eng.Fact) bool {
+				o, truth, isB := ft.BoolVar()
+				if !isB || !truth {
+					return false
+				}
+				for _, d := range f.AssignedFrom(o) {
+					if _, isPI := eng.IsCallTo(info, defOrNil(d), pmsFn+"prepOrInvalidate"); isPI {
+						return true
+					}
+				}
+				return false
+			})
+			c.Check(K(f.Name, "removes only an invalidated sender"), del.Pos(), g, "the creator removes the sender it registered only when prepOrInvalidate reports that it invalidated it", "delete(strmap, p) is reachable when the sender was not invalidated (the context ended while waiting for its lock)")
+		}
+		{
+			pi := c.Fn(pmsFn + "prepOrInvalidate")
+			pcf := pi.CFG()
+			pinfo := pi.Info()
+			inv, _ := pcf.CallLocs(pmsFn + "invalidate")
+			for i, ret := range pcf.Returns() {
+				if len(ret.Results) != 2 {
+					c.Check(K(pi.Name, "reports invalidation"), ret.Pos(), false, "prepOrInvalidate tells its caller whether it invalidated the sender", "it returns only an error")
+					break
+				}
+				if isBoolConst(pinfo, ret.Results[0], false) {
+					continue
+				}
+				okInv := false
+				for _, l := range inv {
+					if pcf.Dominates(l, pcf.LocOf(ret)) {
+						okInv = true
+					}
+				}
+				c.Check(K(pi.Name, "return#"+itoa(i)+" invalidated means invalidate() ran"), ret.Pos(), okInv, "prepOrInvalidate reports invalidation only after calling invalidate()", "a return that may report true is reachable without invalidate()")
+			}
+		}
 		stores := assignsTo(f, func(l ast.Expr) bool {
 			ix, ok := eng.Unparen(l).(*ast.IndexExpr)
 			return ok && eng.IsField(info, ix.X, msiT+".strmap")
